@@ -740,26 +740,14 @@ class file_archive(archive):
                 memo = {}
                #raise OSError("error reading file archive %s" % filename)
         else:
-            import tempfile
-            file = os.path.basename(filename)
-            root = os.path.realpath(filename).rstrip(file)[:-1]
-            curdir = os.path.realpath(os.curdir)
-            if file.endswith(('.py','.pyc','.pyo','.pyd')):
-                file = file.rsplit('.',1)[0]
-            name = tempfile.mktemp(prefix="_____", dir="").replace("-","_")
-            os.chdir(root)
-            string = "from %s import memo as %s; sys.modules.pop('%s')" % (file, name, file)
-            try:
-                sys.path.insert(0, root) # the current directory need not be on sys.path
-                exec(string, globals()) #FIXME: unsafe, potential name conflict
-                memo = globals().get(name, {}) #XXX: error if not found ?
-                globals().pop(name, None)
+            try: # run the source itself (an import could be served stale cached bytecode)
+                with open(filename, 'rb') as f:
+                    _memo = {}
+                    exec(compile(f.read(), filename, 'exec'), _memo)
+                memo = _memo.get('memo', {}) #XXX: error if not found ?
             except: #XXX: should only catch appropriate exceptions
                 memo = {}
                #raise OSError("error reading file archive %s" % filename)
-            finally:
-                sys.path.remove(root)
-                os.chdir(curdir)
         return memo
     def __save__(self, memo=None):
         """create an archive from the given dictionary"""
